@@ -127,6 +127,39 @@ Theorem C15_inner_default_unreachable : forall st t o st' w id,
   step st t o = Ok (st', w) -> ~ In (RErr (EInnerDefault id)) w.
 Proof. exact step_no_inner_default. Qed.
 
+(* handlers that iterate over a collection to find a match answer ONCE, by the first match, however
+   many entries match: plugin_cmd with several configured plugins of the same name (open does not
+   dedupe the plugin list) is answered by the first plugin carrying the name alone; with none by
+   "not found" *)
+Theorem C15_plugin_cmd_duplicates_one_reply : forall st t o fc name,
+  command_of t = "plugin_cmd" -> st_fc st = Some fc -> o_json o = JGood name ->
+  (forall c ps1 ps2, fc_plugins fc = (ps1 ++ (name, c) :: ps2)%list ->
+     (forall q, In q ps1 -> String.eqb (fst q) name = false) ->
+     step st t o = Ok (st, [if c then ROk OkPluginCmd else RErr EPluginNoCmds])) /\
+  ((forall q, In q (fc_plugins fc) -> String.eqb (fst q) name = false) ->
+     step st t o = Ok (st, [RErr EPluginNotFound])).
+Proof. exact step_plugin_cmd. Qed.
+
+(* stop <id> with several streams carrying the id (only possible after the u32 id counter wrapped):
+   one reply, exactly the first of them is removed *)
+Theorem C15_stop_duplicates_one_reply : forall st t o fc id l1 s l2,
+  command_of t = "stop" -> parse_u32 (hd "" (split_on sp (params_of t))) = Some id ->
+  st_fc st = Some fc -> fc_streams fc = (l1 ++ s :: l2)%list -> s_id s = id ->
+  (forall x, In x l1 -> (s_id x =? id) = false) ->
+  step st t o = Ok (with_fc st (set_streams fc (l1 ++ l2)%list), [ROk (OkStop id)]).
+Proof. exact step_stop_first. Qed.
+
+Example C15_duplicate_plugins :
+  let dup := [("Rewrite", false); ("FileTransfer", true); ("Rewrite", false); ("FileTransfer", true); ("FileTransfer", true)] in
+  let h := [ it [] "open {..5 plugins..}" (oo (OpenOk CAll false dup));
+             it [] "plugin_cmd {Rewrite}" (oj (JGood "Rewrite") false);
+             it [] "plugin_cmd {FileTransfer}" (oj (JGood "FileTransfer") false);
+             it [] "plugin_cmd {Nope}" (oj (JGood "Nope") false);
+             it [] "plugin_cmd [1]" (oj JNotObject false) ] in
+  exists st', run_loop (init_state 1) h =
+    Ok (st', [ [ROk (OkOpen 5)]; [RErr EPluginNoCmds]; [ROk OkPluginCmd]; [RErr EPluginNotFound]; [RErr ENotObject] ]).
+Proof. cbv zeta. eexists. vm_compute. reflexivity. Qed.
+
 (* the text layer: `<command> <params>` with a command word without blanks is dispatched to that command
    with exactly that argument text, a bare word to that command with empty arguments; the number syntax
    of ids / windows is Rust's (samples; the correspondence check compares many more) *)
@@ -268,6 +301,9 @@ Print Assumptions C15_stream_id_usable_iff.
 Print Assumptions C15_close_then_open.
 Print Assumptions C15_ids_fresh.
 Print Assumptions C15_inner_default_unreachable.
+Print Assumptions C15_plugin_cmd_duplicates_one_reply.
+Print Assumptions C15_stop_duplicates_one_reply.
+Print Assumptions C15_duplicate_plugins.
 Print Assumptions C15_frame_split.
 Print Assumptions C15_number_syntax.
 Print Assumptions C15_tick_one_pass_refuted.
